@@ -213,10 +213,24 @@ class Instant:
     def __repr__(self):
         return str(self)
 
-def instant_lt(I1, I2): return I1.dt < I2.dt
-def instant_leq(I1, I2): return I1.dt <= I2.dt
-def instant_gt(I1, I2): return I1.dt > I2.dt
-def instant_geq(I1, I2): return I1.dt >= I2.dt
+def check_same_awareness(I1, I2):
+    # Python refuses to order or subtract a datetime that has a time zone
+    # and one that doesn't.
+    if (I1.dt.utcoffset() is None) != (I2.dt.utcoffset() is None):
+        raise KaRuntimeError("Can't compare or subtract an instant with a time zone and one without.")
+
+def instant_lt(I1, I2):
+    check_same_awareness(I1, I2)
+    return I1.dt < I2.dt
+def instant_leq(I1, I2):
+    check_same_awareness(I1, I2)
+    return I1.dt <= I2.dt
+def instant_gt(I1, I2):
+    check_same_awareness(I1, I2)
+    return I1.dt > I2.dt
+def instant_geq(I1, I2):
+    check_same_awareness(I1, I2)
+    return I1.dt >= I2.dt
 
 JUST_YEAR = re.compile(r"\d{4}$")
 JUST_YEAR_AND_MONTH = re.compile(r"\d{4}-\d{2}$")
@@ -254,6 +268,7 @@ def ceil_instant(inst):
     return Instant(datetime(dt.year, dt.month, dt.day) + timedelta(days=1))
 
 def instant_minus_instant(i1, i2):
+    check_same_awareness(i1, i2)
     return Quantity((i1.dt-i2.dt).total_seconds(), SECONDS)
 
 def seconds_to_timedelta(seconds):
